@@ -1617,7 +1617,29 @@ func (x *Exec) inlineCall(st *State, call *ast.CallExpr, decl *ast.FuncDecl, env
 					}
 				}
 				if len(results) == 1 && decl.Type.Results != nil && decl.Type.Results.NumFields() > 1 {
-					results = nil // a tuple handed through from another call: results stay opaque
+					// a tuple handed through from another call: the results are that call's
+					// results, named as a tuple assignment would name them
+					if pc, isCall := ast.Unparen(results[0]).(*ast.CallExpr); isCall && rs != nil {
+						base := x.canonEnv(pc, nil)
+						if vt := x.valueTerm(e, pc, nil); vt.K == KSym && strings.HasSuffix(vt.S, x.Tok(pc.Pos())) {
+							base = strings.TrimSuffix(vt.S, x.Tok(pc.Pos()))
+						}
+						rtok := x.Tok(rs.Pos())
+						nres := 0
+						for _, f := range decl.Type.Results.List {
+							if len(f.Names) == 0 {
+								nres++
+							} else {
+								nres += len(f.Names)
+							}
+						}
+						cur := e
+						for ri := 0; ri < nres; ri++ {
+							cur = cur.Bind(resKey(tok, ri), Sym(fmt.Sprintf("%s%s#%d", base, rtok, ri)))
+						}
+						rets = []*State{cur}
+					}
+					results = nil
 				}
 				for ri, r := range results {
 					var nx []*State
@@ -2062,6 +2084,8 @@ func (x *Exec) evalCmp2(st *State, a ast.Expr, op token.Token, b ast.Expr, envA,
 			res = outs(st, true) // the value is the nil literal (e.g. handed back by a helper explored in place)
 		} else if strings.HasPrefix(vn, "&") && !strings.ContainsAny(vn[1:], "(@") {
 			res = outs(st, false) // the address of something
+		} else if strings.HasPrefix(vn, "fmt.Errorf(") || strings.HasPrefix(vn, "errors.New(") {
+			res = outs(st, false) // these constructors never return nil
 		} else if t, ok := st.Store[key]; ok && t.K != KSym {
 			for _, r := range x.Resolve(st, t) {
 				res = append(res, OutB{r.St, r.V == "T"})
